@@ -43,7 +43,7 @@ _STATE = {"installed": False, "registry": [], "last_steps": 0}
 def plan(tier):
     if tier == "quick":
         return {"runs": 16000, "chunk": 20, "wall_cap": 180}  # small chunks: every chunk is a fresh process (first-use races)
-    return {"runs": 300000, "chunk": 200, "wall_cap": 3000}
+    return {"runs": 300000, "chunk": 200, "wall_cap": 900}
 
 
 def prepare(tier):  # pylint: disable=unused-argument
